@@ -396,6 +396,84 @@ PROPS["C18"] = {
 
 # ----------------------------------------------------------------------------- manifest texts
 UNCLAIMED = {}
+
+# ----------------------------------------------------------------------------- C16
+import re as _re
+
+
+def _c16_fields(line):
+    return dict(x.split("=") for x in _re.findall(r"\b(?:rt|sh|sh32|vrt|K|dom)=\d", line))
+
+
+def c16_spec_matches(model, spec):
+    m, s = _c16_fields(model), _c16_fields(spec)
+    return all(m.get(k) == s.get(k) for k in ("rt", "sh", "sh32", "vrt"))
+
+
+def c16_known(case, impl, model, spec):
+    # the model (faithful to the code) and the property disagree: only on the two classes
+    # of the extracted predicate known_class, told apart by what fails
+    if _c16_fields(spec).get("K") != "1" or impl != model:
+        return None
+    if "F32:15ae43fd" in case or "F32:95ae43fd" in case:
+        return "C16-f32-double-rounding"
+    return "C16-number-token-first-key" if " ser E" in model or " | ser I" in model or " | ser F" in model \
+        else "C16-empty-tuple-variant"
+
+
+def c16_differs(case, impl, model, spec):
+    # shrinking deletes tokens blindly: a candidate whose type descriptor no longer types the
+    # datum (model dom differs from the harness's) or no longer parses is not a smaller witness
+    return impl != model and not model.startswith("BADCASE") and model.split(" ", 1)[0] == impl.split(" ", 1)[0]
+
+
+PROPS["C16"] = {
+    "id": "C16", "family": "c16", "allow_axioms": vf.FLOCQ_AXIOMS,
+    "differs": c16_differs,
+    "nshards": {"quick": 16, "thorough": 16},
+    "nontrivial": lambda case, impl: impl.startswith("dom=1") and ("[" in case.split(" | ")[3] or "{" in case.split(" | ")[3]),
+    "spec_matches": c16_spec_matches,
+    "known": c16_known,
+    "rule": "68 root types built from ~30 #[derive(Serialize, Deserialize)] types (unit/newtype/tuple/plain structs, enums with unit, "
+            "newtype, tuple and struct variants, recursion through Box/Vec/Option, renamed fields and variants incl. empty and "
+            "non-BMP names) and std types (bool, i8..u64, f32, f64, char, String, (), Option, Vec, tuples of 1-4, BTreeMap keyed by "
+            "String, every integer type, char and a unit-variant enum); 900 (quick) / 8000 (thorough) seeded data per root: integers "
+            "at their bounds and random, floats from special values (zeros, powers of ten around lexical's notation breaks, 2^24, "
+            "2^53, 2^63, 2^64, extremes, subnormals), random bit patterns, integral and short-decimal values, non-finite; strings "
+            "from controls/quotes/non-BMP/noncharacters, integer look-alikes, near-copies of the private number token; empty and "
+            "long sequences and maps; nesting depth 1-4. The sd term fed to the model is RECORDED from the type's own Serialize "
+            "impl; the type descriptor comes from the same macro invocation that defines the Rust type. Observable: dom (finite "
+            "floats / typing), to_value as a canonical value (integer spellings exactly, other numbers as the double they read as) "
+            "or its error kind, the re-recorded datum returned by from_value (maps sorted), equality with the original, "
+            "serde_json::to_value as a canonical value, equality of JSON shapes (exact, and at binary32 precision), the datum "
+            "returned through Value::from_serde_json, equality with the original; every third case additionally hands from_value::<T> "
+            "the serialized value with one random edit (array element added/removed, entry removed/added/renamed, object turned into "
+            "an array, single-entry object unwrapped or nulled, string wrapped as {s:null}, numbers replaced by boundary values, "
+            "kinds swapped) and compares the re-recorded result or the rejection (dx). hyp: the model checks the theorems' float "
+            "premises on every spelling recorded from the dependencies. Spec column: what the property demands on its "
+            "domain (rt, sh, sh32, vrt all 1). Non-trivial: in-domain data with a compound constructor. distinct = distinct case lines.",
+    "trusted": [
+        "MODELLED CONTRACT (Model/Serde.v, comment above [de]): which deserialize_* method each std / serde-derive generated "
+        "Deserialize impl calls and which visit_* it accepts (integers: visit_u64/visit_i64 with range checks; floats accept "
+        "integers; char: one-char string; Option: deserialize_option; derived struct: map or seq, unknown keys skipped, repeated "
+        "field an error, absent Option field None; derived enum: string or single-entry map; zero-field tuple variant visitor "
+        "rejects visit_unit); validated by this run on every root type, not verified",
+        "serde_json::to_value's shape (ser_sj: BTreeMap objects ordered by key, i64/u64 as NegInt/PosInt, f32 widened to f64, "
+        "non-finite floats null, key kinds) and Value::from_serde_json are modelled from serde_json's source/documentation; validated by this run",
+        "float formatting and parsing (lexical write, lexical lossy parse, serde_json's float Display) are section variables; the "
+        "theorems assume that the spelling of a finite float read back along the deserializer's number path returns it (-0.0 "
+        "as +0.0); executable reference instances (correctly rounded nearest_double; 17-digit spelling for f64, shortest for f32 "
+        "with lexical's layout and tie rule) are validated by this run and checked on a sample inside Coq",
+        "the recording serializer and the type-descriptor macros of harness/src/serde_typed.rs",
+        "Flocq 4.1.0 binary_round / SpecFloat (executable definitions only; the C16 theorems use no axiom)",
+    ],
+    "assumptions": [
+        "domain: has_type (map keys pairwise distinct as rendered, Some(x) only for x not rendered as null, struct fields as declared), "
+        "finite floats, outside the known classes K1/K2/K3",
+        "a JSON object with a repeated key deserialized into a map type is not modelled (later entry would overwrite); to_value never produces one",
+    ],
+}
+
 COMMON_NOTE = ("Trusted: Coq kernel; ExtrOcamlBasic extraction; OCaml glue; Rust harness; the hand-written model is tied to the "
                "code only by the correspondence run (complete on the enumerated finite sub-domains, sampled beyond). ")
 
@@ -769,3 +847,28 @@ _m("C19", "Proved for EVERY document of the domain (arrays and objects nested to
    "Coq proof (accumulator invariants of the two token munchers by induction on the item list inside a nested induction on "
    "documents; text side by composition with C04/C08) + correspondence on compiled batches of generated json! programs "
    "(macro value, parsed value, model expansion, model parse, denoted value all compared)")
+
+_m("C16", "Proved for EVERY type environment, type descriptor and datum of the serde data model (bool, i8..u64, f32, f64, char, string, "
+          "unit, unit/newtype/tuple/plain structs, option, seq, tuple, maps keyed by strings/integers/chars/unit variants, the four "
+          "enum variant kinds; recursive types through nominal definitions), by nested induction on the datum: (C16_roundtrip) if the "
+          "datum is well typed, its floats finite and it is outside three recorded classes, to_value succeeds and from_value of the "
+          "result returns the datum with -0.0 read back as +0.0 and nothing else changed, for all sufficiently large fuel; "
+          "(C16_nonfinite) non-finite f32/f64 serialize to null; (C16_shape) for data without f32 leaves the value has the same JSON "
+          "shape as the model of serde_json::to_value: structure, strings, booleans exact, object members up to order, numbers by "
+          "value (for f32 leaves json-syntax prints the shortest f32 digits while serde_json widens to f64: equality at binary32 "
+          "precision is checked by the run only -- the partial part); (C16_via_json) converting the serde_json rendering into a Value "
+          "and deserializing it returns the datum exactly, sign of zero included, maps in key order, for every well-typed finite "
+          "datum without a field-less tuple variant. Three genuine findings with witnesses proved in Coq: C16_K1_refuted (a map whose "
+          "first key is `$serde_json::private::Number` becomes a number or an error), C16_K2_refuted (a tuple variant without fields "
+          "`V()` serializes to {\"V\":[]} which from_value rejects), C16_K3_refuted (the f32 7.038531e-26 = 0x15ae43fd comes back as "
+          "0x15ae43fe: its shortest spelling read as a double is an exact binary32 midpoint -- the only finite f32 magnitude with "
+          "this defect, established by running all 4,278,190,080 finite f32 through the implementation). The call protocol of the "
+          "std / derive-generated Deserialize impls, serde_json::to_value's shape, Value::from_serde_json and the float formatting / "
+          "parsing dependencies are MODELLED CONTRACTS (transcriptions / section variables with explicit premises) validated by the "
+          "run: the run feeds the model the spellings the dependencies actually printed and checks every premise on them (hyp=1), "
+          "and also hands from_value 20k ill-typed edits of serialized values.",
+   "No axioms (Flocq is used for executable definitions only). Floats are bit patterns; the float dependencies enter the theorems as "
+   "explicit premises (reading a spelling back returns the float; serde_json floats are non-integer-spelled; `f32 as f64 as f32` is the identity), "
+   "each re-checked by the run on every recorded spelling and on samples inside Coq.",
+   "Coq proof (nested induction on the datum, generalised over type and fuel; sorted-insertion lemmas for the serde_json side) + "
+   "correspondence on 68 root types with a recording serializer, recorded float spellings and ill-typed inputs")
